@@ -3,7 +3,8 @@ C18 helper: controlled executions of the REAL Pyro5.svr_threads.Pool / Worker un
 
 One execution = a small *scenario*: pool sizes (min, max) and one or two client programs
     A = the accept loop's thread        B = a second thread (daemon.shutdown() caller / whoever ends connections)
-each a list of ops   ["S"] submit the next job (pool.process) | ["F", k] let job k end | ["C"] pool.close()
+each a list of ops   ["S"] submit the next job (pool.process) | ["F", k] let job k end | ["X", k] let job k end by
+RAISING an exception (a fault inside the connection handler) | ["C"] pool.close()
 Jobs are callables that block on a harness event, so a job "runs" exactly as long as the scenario says.
 
 Everything the pool's threads share is a scheduling point:
@@ -72,6 +73,7 @@ def run_scenario(policy, mn, mx, progs, monitor=None, max_steps=4000):
     run.max_seen = 0
     run.close_returned = False
     run.in_process = None
+    run.in_closed_pool = None
     run.closed_set = False
     sc = None
     base_policy = policy
@@ -107,6 +109,10 @@ def run_scenario(policy, mn, mx, progs, monitor=None, max_steps=4000):
     shim_time = types.SimpleNamespace(sleep=lambda s: sc.point(("sleep",)), time=lambda: 0.0)
 
     def w_start(self):
+        pool = holder.get("pool")
+        if pool is not None and pool.__dict__.get("_closed", False):
+            # sound: the fixed code starts a worker only under count_lock after reading closed == False under that lock
+            run.in_closed_pool = run.in_closed_pool or "a new worker thread was started in a closed pool"
         idx = len(run.workers)
         run.workers.append(self)
         tid = sc.adopt_start(self, "worker%d" % idx)
@@ -130,6 +136,18 @@ def run_scenario(policy, mn, mx, progs, monitor=None, max_steps=4000):
             sc.point(("closed", "set"))
             self.__dict__["_closed"] = v
 
+    orig_wprocess = svr_threads.Worker.process
+
+    def w_process(self, job):
+        pool = holder.get("pool")
+        if job is not None and pool is not None and pool.__dict__.get("_closed", False):
+            run.in_closed_pool = run.in_closed_pool or "a job was handed to a worker in a closed pool"
+        return orig_wprocess(self, job)
+
+    import logging
+    plog = logging.getLogger("Pyro5.threadpoolserver")
+    log_was_disabled = plog.disabled
+    holder = {}
     job_events = []
     saved = (svr_threads.threading, svr_threads.time, config.THREADPOOL_SIZE, config.THREADPOOL_SIZE_MIN)
     had_set = "set" in svr_threads.__dict__
@@ -138,14 +156,16 @@ def run_scenario(policy, mn, mx, progs, monitor=None, max_steps=4000):
     svr_threads.set = iset                     # `set()` inside Pool.__init__ / Pool.close builds instrumented sets
     svr_threads.Worker.start = w_start
     svr_threads.Worker.join = w_join
+    svr_threads.Worker.process = w_process
+    plog.disabled = True            # jobs that raise are logged with a traceback by the worker; keep stderr quiet
     config.THREADPOOL_SIZE = mx
     config.THREADPOOL_SIZE_MIN = mn
     try:
         njobs = sum(1 for p in progs for op in p if op[0] == "S")
-        nev = max([njobs] + [op[1] + 1 for p in progs for op in p if op[0] == "F"])
+        nev = max([njobs] + [op[1] + 1 for p in progs for op in p if op[0] in ("F", "X")])
         for k in range(nev):
             job_events.append(TEvent(sc, "job%d" % k, td))
-        holder = {}
+        raising = set()
 
         def make_job(k):
             rec = run.jobs[k]
@@ -161,6 +181,9 @@ def run_scenario(policy, mn, mx, progs, monitor=None, max_steps=4000):
                 if td.on:
                     return
                 rec["ended"] += 1
+                if k in raising:
+                    run.events.append(("end-raising", k))
+                    raise RuntimeError("job %d fails" % k)
                 run.events.append(("end", k))
             return job
 
@@ -193,9 +216,11 @@ def run_scenario(policy, mn, mx, progs, monitor=None, max_steps=4000):
                             rec["status"] = "E:" + type(e).__name__
                             run.events.append(("error", k, type(e).__name__))
                         run.in_process = None
-                    elif op[0] == "F":
+                    elif op[0] in ("F", "X"):
+                        if op[0] == "X":
+                            raising.add(op[1])
                         job_events[op[1]].set()
-                        run.events.append(("fin", op[1]))
+                        run.events.append(("fin" if op[0] == "F" else "fin-raising", op[1]))
                     elif op[0] == "C":
                         try:
                             pool.close()
@@ -230,6 +255,8 @@ def run_scenario(policy, mn, mx, progs, monitor=None, max_steps=4000):
             del svr_threads.__dict__["set"]
         del svr_threads.Worker.start
         del svr_threads.Worker.join
+        svr_threads.Worker.process = orig_wprocess
+        plog.disabled = log_was_disabled
     run.leaked = sum(1 for t in sc.threads if t.state != "done")
     return run
 
